@@ -177,29 +177,34 @@ Section Replicate.
   Proof. intros Hnr (H1 & H2 & H3 & H4). split; [|exact H3]. split; [exact H1|]. split; [exact H2|]. exists nr. auto. Qed.
 
   (* ---- all rules -------------------------------------------------------------------------------------------------- *)
+  (* rule nr has a chain of its own (with its own signer list) under its identifier *)
+  Definition has_chain_of (rep : list (ident * list chain)) (nr : nrule) : Prop :=
+    exists chs rc, al_get ident_eqb rep (nr_id nr) = Some chs /\ In rc chs /\ ch_sign rc = isort str_leb (nr_sign nr).
+
   Theorem replicate_rules_ok k0 : refs_earlier -> 1 <= k0 ->
     exists rep, replicate_rules nrules k0 = Ok rep /\ rep_ok rep /\
-                forall nr, In nr nrules -> exists chs, al_get ident_eqb rep (nr_id nr) = Some chs.
+                forall nr, In nr nrules -> has_chain_of rep nr.
   Proof.
     intros Hre Hk0. unfold replicate_rules.
     match goal with |- context [rfold ?F nrules ([], k0)] => set (step := F) end.
     assert (G : forall todo done rep k, nrules = done ++ todo -> rep_ok rep -> 1 <= k ->
-              (forall nr, In nr done -> exists chs, al_get ident_eqb rep (nr_id nr) = Some chs) ->
+              (forall nr, In nr done -> has_chain_of rep nr) ->
               exists rep' k', rfold step todo (rep, k) = Ok (rep', k') /\ rep_ok rep' /\
-                forall nr, In nr nrules -> exists chs, al_get ident_eqb rep' (nr_id nr) = Some chs).
+                forall nr, In nr nrules -> has_chain_of rep' nr).
     { induction todo as [|nr todo IH]; intros done rep k Esplit Hrep Hk Hdone; cbn [rfold].
       - exists rep, k. split; [reflexivity|]. split; [exact Hrep|]. intros nr Hnr. apply Hdone. rewrite Esplit, app_nil_r in Hnr. exact Hnr.
       - assert (Hnr : In nr nrules) by (rewrite Esplit; apply in_or_app; right; left; reflexivity).
         destruct (init_chains_ok nr Hnr) as [Hine Hipart]. unfold step at 1. cbn [fst snd].
         destruct (replicate_name_ok rep nr Hnr Hrep) with (comps := nr_name nr) (cur := init_chains nr) (k := k) as (cur' & k' & E & Hne' & Hcur' & Hk'); auto.
-        { intros r Hr. destruct (Hre done nr todo r Esplit Hr) as (nr' & Hin' & Hid'). rewrite <- Hid'. apply Hdone, Hin'. }
+        { intros r Hr. destruct (Hre done nr todo r Esplit Hr) as (nr' & Hin' & Hid'). rewrite <- Hid'. destruct (Hdone nr' Hin') as (chs & _ & Hg & _). eauto. }
         rewrite E. cbn [bind fst snd].
         assert (Hchains : Forall (fun ch => chain_from ch /\ ch_id ch = nr_id nr) cur').
         { eapply Forall_impl; [|exact Hcur']. intros ch Hp. apply partial_done; auto. }
         set (rep1 := match al_get ident_eqb rep (nr_id nr) with
                      | Some old => al_set ident_eqb rep (nr_id nr) (old ++ cur')
                      | None => rep ++ [(nr_id nr, cur')] end).
-        assert (Hrep1 : rep_ok rep1 /\ (forall id, (exists chs, al_get ident_eqb rep id = Some chs) \/ id = nr_id nr -> exists chs, al_get ident_eqb rep1 id = Some chs)).
+        assert (Hrep1 : rep_ok rep1 /\ (forall id chs, al_get ident_eqb rep id = Some chs -> exists chs', al_get ident_eqb rep1 id = Some chs' /\ incl chs chs') /\
+                        (exists chs', al_get ident_eqb rep1 (nr_id nr) = Some chs' /\ incl cur' chs')).
         { unfold rep1. destruct (al_get ident_eqb rep (nr_id nr)) as [old|] eqn:Eold.
           - split.
             + intros id chs Hin.
@@ -212,20 +217,26 @@ Section Replicate.
               destruct Hcase as [[-> ->] | Hold]; [|apply Hrep, Hold].
               apply al_get_in_pair in Eold. destruct (Hrep _ _ Eold) as [Hone Hofor].
               split; [destruct old; [contradiction | discriminate] | apply Forall_app; auto].
-            + intros id [(chs & Hc) | ->].
-              * destruct (list_eq_dec N.eq_dec id (nr_id nr)) as [->|Hne0].
-                -- eexists. apply al_get_set_same. unfold al_mem. rewrite Eold. reflexivity.
-                -- exists chs. rewrite al_get_set_other by congruence. exact Hc.
-              * eexists. apply al_get_set_same. unfold al_mem. rewrite Eold. reflexivity.
+            + split.
+              * intros id chs Hc. destruct (list_eq_dec N.eq_dec id (nr_id nr)) as [->|Hne0].
+                -- rewrite Eold in Hc. inversion Hc; subst chs. eexists. split; [apply al_get_set_same; unfold al_mem; rewrite Eold; reflexivity|].
+                   intros x Hx. apply in_or_app. left. exact Hx.
+                -- exists chs. rewrite al_get_set_other by congruence. split; [exact Hc | apply incl_refl].
+              * eexists. split; [apply al_get_set_same; unfold al_mem; rewrite Eold; reflexivity|]. intros x Hx. apply in_or_app. right. exact Hx.
           - split.
             + intros id chs Hin. apply in_app_or in Hin. destruct Hin as [Hin|[Hin|[]]]; [apply Hrep, Hin|]. inversion Hin; subst. auto.
-            + intros id [(chs & Hc) | ->].
-              * exists chs. apply al_get_app_some. exact Hc.
-              * exists cur'. rewrite (al_get_app_none _ _ _ _ Eold), (proj2 (ident_eqb_eq _ _) eq_refl), Eold. reflexivity. }
-        destruct Hrep1 as [Hrep1 Hkeys1].
+            + split.
+              * intros id chs Hc. exists chs. split; [apply al_get_app_some; exact Hc | apply incl_refl].
+              * exists cur'. split; [|apply incl_refl]. rewrite (al_get_app_none _ _ _ _ Eold), (proj2 (ident_eqb_eq _ _) eq_refl), Eold. reflexivity. }
+        destruct Hrep1 as (Hrep1 & Hmono & Hnew).
         apply (IH (done ++ [nr]) rep1 k'); auto.
         + rewrite <- app_assoc. exact Esplit.
-        + intros nr0 Hin0. apply in_app_or in Hin0. destruct Hin0 as [Hin0|[<-|[]]]; [apply Hkeys1; left; apply Hdone, Hin0 | apply Hkeys1; right; reflexivity]. }
+        + intros nr0 Hin0. apply in_app_or in Hin0. destruct Hin0 as [Hin0|[<-|[]]].
+          * destruct (Hdone nr0 Hin0) as (chs & rc & Hg & Hrc & Hsg). destruct (Hmono _ _ Hg) as (chs' & Hg' & Hincl).
+            exists chs', rc. split; [exact Hg'|]. split; [apply Hincl, Hrc | exact Hsg].
+          * destruct Hnew as (chs' & Hg' & Hincl). destruct cur' as [|rc cur']; [contradiction|].
+            exists chs', rc. split; [exact Hg'|]. split; [apply Hincl; left; reflexivity|].
+            inversion Hcur' as [|? ? (_ & _ & _ & Hsg) _]; subst. exact Hsg. }
     destruct (G nrules [] [] k0 eq_refl) as (rep & k' & E & Hrep & Hall); auto.
     - intros id chs [].
     - intros nr [].
